@@ -148,6 +148,11 @@ async fn scenario(c: IdentCase) -> Obs {
         }
     }
     let key_of = |d: &RichKey| -> usize { c.keys.iter().position(|k| k.a == d.k.a && k.b == d.k.b && k.name == d.name && k.n == d.n).unwrap_or(usize::MAX) };
+    // bookkeeping per instance (several entries of `keys` may hold equal keys): index of the first equal key
+    let canon = |ki: usize| -> usize {
+        let k = &c.keys[ki];
+        c.keys.iter().position(|x| (x.a, x.b, &x.name, x.n) == (k.a, k.b, &k.name, k.n)).unwrap_or(ki)
+    };
     let mut written_alive: BTreeMap<usize, bool> = BTreeMap::new();
     for op in &c.ops {
         match op {
@@ -158,7 +163,7 @@ async fn scenario(c: IdentCase) -> Obs {
                     o.setup_error = Some("write failed".into());
                     return o;
                 }
-                written_alive.insert(ki, true);
+                written_alive.insert(canon(ki), true);
                 // serialized size roughly 4+3+2(+pad)+4+4+len(name)+1+8+4+blob
                 if (*blob_len as u32 + c.keys[ki].name.len() as u32 + 40) > c.frag {
                     classes.insert("fragmented_no_key_hash_on_wire".to_string());
@@ -168,25 +173,25 @@ async fn scenario(c: IdentCase) -> Obs {
             }
             IOp::Dispose { key } => {
                 let ki = *key as usize % c.keys.len();
-                if written_alive.get(&ki) != Some(&true) {
+                if written_alive.get(&canon(ki)) != Some(&true) {
                     continue;
                 }
                 if w.dispose(sample(&c.keys[ki], 0, 0), None).await.is_err() {
-                    o.setup_error = Some("dispose failed".into());
+                    o.setup_error = Some("dispose of a written, registered instance failed".into());
                     return o;
                 }
                 classes.insert("dispose".to_string());
             }
             IOp::Unregister { key } => {
                 let ki = *key as usize % c.keys.len();
-                if written_alive.get(&ki) != Some(&true) {
+                if written_alive.get(&canon(ki)) != Some(&true) {
                     continue;
                 }
                 if w.unregister_instance(sample(&c.keys[ki], 0, 0), None).await.is_err() {
-                    o.setup_error = Some("unregister failed".into());
+                    o.setup_error = Some("unregister of a written, registered instance failed".into());
                     return o;
                 }
-                written_alive.insert(ki, false);
+                written_alive.insert(canon(ki), false);
                 classes.insert("unregister".to_string());
             }
         }
